@@ -65,6 +65,11 @@ class C01(Property):
 
     # ------------------------------------------------------------------ generation
     def gen_step(self, world, rng):
+        plan = world.model.setdefault("plan", [])
+        while plan:
+            st = plan.pop(0)
+            if st["h"] in world.session(st["sess"]):
+                return st
         sess = rng.pick(self.SESSIONS)
         handles = sorted(world.session(sess))
         written = [p for p in PATHS]
@@ -97,12 +102,20 @@ class C01(Property):
             world.model["n"] += 1
             return {"op": "copy", "sess": sess, "src": rng.pick(handles), "h": "m%d" % world.model["n"]}
         if op == "mutate":
-            return {"op": "mutate", "sess": sess, "h": rng.pick(handles), "how": rng.pick(["scale", "renumber"]),
-                    "factor": rng.pick([2.0, 0.5, 4.0])}
+            return {"op": "mutate", "sess": sess, "h": rng.pick(handles), "how": rng.pick(["scale", "renumber", "remove", "remove"]),
+                    "factor": rng.pick([2.0, 0.5, 4.0]), "pos": rng.randrange(0, 40)}
         world.model["n"] += 1
-        return {"op": "load", "sess": sess, "path": rng.pick(written), "h": "m%d" % world.model["n"],
-                "api": rng.pick(["Motl.load", "EmMotl", "EmMotl.read_in"]), "io": True,
-                "hint": {"read": 3, "stat": 2, "any": 6}}
+        st = {"op": "load", "sess": sess, "path": rng.pick(written), "h": "m%d" % world.model["n"],
+              "api": rng.pick(["Motl.load", "EmMotl", "EmMotl.read_in"]), "io": True,
+              "hint": {"read": 3, "stat": 2, "any": 6}}
+        if rng.chance(0.35):
+            # the usual life of a loaded list: edit it (here: drop a particle), write it out again
+            plan.append({"op": "mutate", "sess": sess, "h": st["h"], "how": rng.pick(["remove", "remove", "scale"]),
+                         "factor": 2.0, "pos": rng.randrange(0, 40)})
+            plan.append({"op": "write", "sess": sess, "h": st["h"], "path": rng.pick(written + [st["path"]]),
+                         "api": rng.pick(["Motl.write_out", "EmMotl.write_out", "EmMotl.write_out"]), "io": True,
+                         "hint": {"write": 2, "stat": 4, "any": 8}})
+        return st
 
     def gen_recovery(self, world, rng):
         """After faults stop: every path left indeterminate must accept a fault-free write + load."""
@@ -166,6 +179,17 @@ class C01(Property):
                 out = world.call(step["sess"], obj.scale_coordinates, step["factor"])
                 for c in ("x", "y", "z", "shift_x", "shift_y", "shift_z"):
                     h["model"][:, MOTL_COLS.index(c)] *= step["factor"]
+            elif step["how"] == "remove":
+                # the list shrinks (one particle removed through its geom5 value) and is written again later
+                n = len(h["model"])
+                j = step["pos"] % n
+                col = MOTL_COLS.index("geom5")
+                tag = h["model"][j, col]
+                if n < 2 or np.isnan(tag) or (h["model"][:, col] == tag).sum() != 1 or np.isnan(h["model"][:, col]).any():
+                    raise Skip()
+                out = world.call(step["sess"], obj.remove_feature, "geom5", float(tag))
+                h["model"] = np.delete(h["model"], j, axis=0)
+                world.probes["particle_count_changed"] += 1
             else:
                 out = world.call(step["sess"], obj.renumber_particles)
                 h["model"][:, MOTL_COLS.index("subtomo_id")] = np.arange(1, len(h["model"]) + 1)
